@@ -1,4 +1,16 @@
 import Driver.RpcTrace
+import Driver.C16Life
 namespace Driver.C16
-def handle (toks : List String) : String := Driver.RpcTrace.handle "c16" toks
+/-- a trace is replayed through the RPC machine (as for C09–C11) and, when that accepts it, through the lifecycle
+machine around it (Mtv/Client/Lifecycle.lean) -/
+def handle (toks : List String) : String :=
+  let r := Driver.RpcTrace.handle "c16" toks
+  match toks with
+  | [op, trace] =>
+    if op == "c16.trace" && r.startsWith "ok" then
+      match Driver.C16Life.replay trace with
+      | none => r
+      | some why => "life:" ++ why
+    else r
+  | _ => r
 end Driver.C16
